@@ -295,7 +295,9 @@ def random_trace(seed, maxmax=2, ntasks=3, nclients=1, observer=True, extend=0, 
                 R.base_nt = R.nt
                 for _ in range(extend):
                     ops = R.avail_ops(c)
-                    w = [4 if (o[0] == "start" and R.phase == "stopped") else 3 if o[0] == "enq" else 2 if o[0] == "release" else 1 for o in ops]
+                    stopped = R.phase == "stopped"
+                    w = [(2 if rnd2.random() < 0.5 else 5) if (o[0] == "start" and stopped) else (6 if stopped else 3) if o[0] == "enq"
+                         else 2 if o[0] == "release" else 1 for o in ops]
                     op = rnd2.choices(ops, w)[0]
                     if op[0] == "enq":
                         R.claimed.add(op[1])
@@ -306,6 +308,8 @@ def random_trace(seed, maxmax=2, ntasks=3, nclients=1, observer=True, extend=0, 
     if observer:
         S.spawn(lambda: R.observe(rnd, rnd.randint(0, 6)), "observer", 200)
     p_timeout = rnd.choice([0.0, 0.05, 0.3])
+    sticky = rnd.choice([0.0, 0.0, 0.5, 0.8])      # probability of letting the thread that just ran go on (longer uninterrupted stretches)
+    last = None
     end = "quiescent"
     idle = 0                      # time-outs fired since a client or a task body last made a step
     while True:
@@ -317,7 +321,7 @@ def random_trace(seed, maxmax=2, ntasks=3, nclients=1, observer=True, extend=0, 
         tm = [t for t in live if not S.is_enabled(t) and t.can_timeout]
         may_tmo = tm and idle < 2 * len(tm) + 2
         if en and not (may_tmo and rnd.random() < p_timeout):
-            t, tmo = rnd.choice(en), False
+            t, tmo = (last if (last in en and rnd.random() < sticky) else rnd.choice(en)), False
         elif may_tmo:
             t, tmo = rnd.choice(tm), True
             idle += 1
@@ -328,6 +332,8 @@ def random_trace(seed, maxmax=2, ntasks=3, nclients=1, observer=True, extend=0, 
             break
         if not tmo and (t.idx >= 100 or t.op[0] in ("enter", "body")):
             idle = 0
+        if not tmo:
+            last = t
         if S.steps > STEP_CAP:
             end = "truncated"
             break
@@ -341,6 +347,110 @@ def random_trace(seed, maxmax=2, ntasks=3, nclients=1, observer=True, extend=0, 
                  ext=[extend, ext_seed], params=[maxmax, ntasks, nclients])
     S.kill_all()
     return h
+
+
+# --------------------------------------------------------------------------- systematic mode
+PROGRAMS = [   # (client 1, client 2) - small programs around start / stop / restart with a second enqueuing / joining client
+    ([["start"], ["stop"], ["enq", 2]], [["enq", 1]]),
+    ([["start"], ["stop"], ["enq", 2], ["start"]], [["enq", 1]]),
+    ([["start"], ["enq", 2], ["stop"], ["enq", 3]], [["enq", 1]]),
+    ([["start"], ["enq", 2], ["stop"], ["start"], ["enq", 3]], [["enq", 1], ["join"]]),
+    ([["enq", 2], ["start"], ["stop"]], [["enq", 1]]),
+    ([["start"], ["enq", 2], ["join"], ["stop"]], [["enq", 1], ["joint0"]]),
+    ([["start"], ["enq", 2], ["release", 2], ["stop"], ["start"], ["stop"]], [["enq", 1]]),
+    ([["start"], ["enq", 2], ["clear"], ["enq", 3], ["stop"]], [["enq", 1]]),
+    ([["start"], ["stop"], ["start"], ["enq", 2]], [["enq", 1], ["enq", 3]]),
+    ([["start"], ["enq", 1], ["enq", 2], ["enq", 3], ["release", 1], ["join"]], []),
+    ([["enq", 1], ["enq", 2], ["enq", 3], ["start"], ["release", 1], ["release", 2], ["joint"], ["stop"]], []),
+]
+
+
+def planned_trace(mx, mn, gated, progs, plan, policy, qcap=0):
+    """One execution of fixed client programs under the default policy (keep running the current thread while it is
+    enabled, else the enabled thread with the lowest / highest id) with the preemptions of `plan` (step -> thread id,
+    negative = fire that thread's time-out)."""
+    nc = 2 if progs[1] else 1
+    R = PoolRun(mx, mn, 4, gated, [], nc, qcap)
+    S = R.S
+
+    def client(c):
+        def run():
+            for op in progs[c - 1]:
+                if op[0] == "enq":
+                    R.claimed.add(op[1])
+                R.do_op(c, op)
+        return run
+    for c in range(1, nc + 1):
+        S.spawn(client(c), "client%d" % c, 100 + c)
+    cur, step, choices, end = None, 0, [], "quiescent"
+    while True:
+        live = S.live()
+        en = [t for t in live if S.is_enabled(t)]
+        tm = [t for t in live if not S.is_enabled(t) and t.can_timeout]
+        if not live:
+            end = "done"
+            break
+        want = plan.get(step)
+        t, tmo = None, False
+        if want is not None and want < 0:
+            t = next((x for x in tm if x.idx == -want), None)
+            tmo = t is not None
+        elif want is not None:
+            t = next((x for x in en if x.idx == want), None)
+        if t is None:
+            if not en:
+                tmc = [x for x in tm if x.idx >= 100]        # a client's join(timeout) expires at quiescence
+                if tmc:
+                    t, tmo = tmc[0], True
+                else:
+                    end = "quiescent"
+                    break
+            else:
+                t = cur if cur in en else sorted(en, key=lambda x: x.idx if policy == "low" else -x.idx)[0]
+        if not tmo and t.idx >= 100 and t.op[0] in ("is_set", "set", "clear", "qput", "acquire", "release", "qsize", "thread_start", "fetch", "return", "qempty", "unfinished_read", "qget_nowait", "thread_join"):
+            choices.append((step, t.idx, [x.idx for x in en if x is not t] + [-x.idx for x in tm if x.idx < 100]))
+        if not tmo:
+            cur = t
+        S.step(t, tmo)
+        step += 1
+        if S.steps > STEP_CAP:
+            end = "truncated"
+            break
+    blocked = [t.idx for t in S.live() if 100 <= t.idx < 200]
+    ev = normalise(S.events)
+    serving_lower_bound(ev, end)
+    h = R.header(seed=0, end=end, ev=ev, blocked=blocked, blockedop=[(R.cop.get(b - 100) or ["none"])[0] for b in blocked],
+                 enq=R.enq_order, started=R.start_order, kind="planned", nsteps=S.steps,
+                 plan=sorted(plan.items()), policy=policy, progs=progs, params=[mx, 4, nc])
+    S.kill_all()
+    return h, choices
+
+
+def explore(part, nparts, maxruns, rnd):
+    """All schedules with at most one preemption (at the clients' synchronisation operations) of the catalogue programs."""
+    out, seen = [], set()
+    combos = []
+    for pi, progs in enumerate(PROGRAMS):
+        for (mx, mn) in ((1, 0), (2, 0), (2, 1), (1, 1)):
+            for policy in ("low", "high"):
+                combos.append((progs, mx, mn, policy))
+    for (progs, mx, mn, policy) in combos[part::nparts]:
+        released = sorted(set(op[1] for pr in progs for op in pr if op[0] == "release"))
+        gated = sorted(set(released) | set(t for t in (1, 2, 3) if rnd.random() < 0.25))
+        base, choices = planned_trace(mx, mn, gated, progs, {}, policy)
+        out.append(base)
+        plans = []
+        for (st, curidx, others) in choices:
+            for o in others:
+                plans.append({st: o})
+        rnd.shuffle(plans)
+        for plan in plans[:maxruns]:
+            tr, _c = planned_trace(mx, mn, gated, progs, plan, policy)
+            key = "|".join("%s:%s" % (e["thr"], e["k"]) for e in tr["ev"])
+            if key not in seen:
+                seen.add(key)
+                out.append(tr)
+    return out
 
 
 # --------------------------------------------------------------------------- replay mode
@@ -475,7 +585,11 @@ def replay_behaviour(beh, limit=400):
 if __name__ == "__main__":
     mode = sys.argv[1]
     t0 = time.time()
-    if mode == "extend":
+    if mode == "explore":
+        # argv: explore <part> <nparts> <maxruns> <seed> <out>
+        part, nparts, maxruns, seed, out = int(sys.argv[2]), int(sys.argv[3]), int(sys.argv[4]), int(sys.argv[5]), sys.argv[6]
+        traces = explore(part, nparts, maxruns, random.Random(seed))
+    elif mode == "extend":
         # argv[2]: json list of [seed, maxmax, nt, nc, extend, ext_seed]
         out = sys.argv[3]
         traces = [random_trace(a[0], a[1], a[2], a[3], True, a[4], a[5]) for a in json.load(open(sys.argv[2]))]
